@@ -76,42 +76,6 @@ Section Steps.
     let Es := fresh "Es" in
     unfold FreeListInv.st_ok in *; destruct (st a n) as [|?t|?t| | |?t|?t] eqn:Es.
 
-  (** *** get(): the refs CAS succeeds *)
-  Lemma step_cas_refs g a t h r :
-    InvS g a -> ph a t = Busy -> refs g h = r -> r mod FLAG <> 0 ->
-    InvS (set_refs g h (u32 (r + 1))) (aux_set a h (st a h) t (GRef h)).
-  Proof.
-    intros Hi Hp Hr Hm.
-    assert (Ht : (t < N)%nat) by (eapply active_lt; eauto; congruence).
-    pose proof (cnt_set a h (st a h) t (GRef h) h Ht) as Hc. rewrite Hp in Hc.
-    unfold has_ref in Hc; cbn in Hc. rewrite Nat.eqb_refl in Hc. cbn in Hc.
-    pose proof (cnt_bound N HN a h (st a h)) as Hb.
-    pose proof (cnt_bound N HN (aux_set a h (st a h) t (GRef h)) h (st a h)) as Hb'.
-    rewrite (S_refs Hi h) in Hr. subst r. rewrite enc_mod in Hm by exact Hb.
-    pose proof (S_st Hi h) as Ho.
-    apply InvS_set with (g := g); auto.
-    - rewrite Hp; left; reflexivity.
-    - intros n Hn. apply refs_set_refs_other; exact Hn.
-    - rewrite refs_set_refs_same. rewrite u32_enc_add1 by lia. f_equal. lia.
-    - unfold FreeListInv.st_ok in *. rewrite st_set_same.
-      destruct (st a h) as [|t1|t1| | |t1|t1] eqn:Es; cbn [base_of] in *; rewrite ?hl_set.
-      + lia.
-      + destruct (Nat.eq_dec t1 t) as [->|Hne].
-        * rewrite Hp in Ho. destruct Ho as [Ho|[Ho|Ho]]; try discriminate. left; exact Ho.
-        * rewrite ph_set_other by exact Hne. exact Ho.
-      + destruct (Nat.eq_dec t1 t) as [->|Hne]; [congruence|]. rewrite ph_set_other by exact Hne. exact Ho.
-      + exact I.
-      + lia.
-      + lia.
-      + destruct (Nat.eq_dec t1 t) as [->|Hne].
-        * destruct Ho as [[x Ho]|Ho]; congruence.
-        * rewrite ph_set_other by exact Hne. exact Ho.
-    - apply (S_chain Hi).
-    - apply (S_lin Hi).
-    - cbn. exact I.
-    - apply (S_held Hi).
-  Qed.
-
   (** thread [t] holds a reference on [h]: the count is at least one *)
   Lemma ref_cnt_pos g a t h : InvS g a -> has_ref (ph a t) h = true -> (1 <= cnt a h)%nat.
   Proof.
@@ -125,7 +89,7 @@ Section Steps.
     p = PPut n \/ p = PRet n \/ p = GTook n \/ p = AStart n \/ (exists h, p = ANxt n h) \/ (exists h, p = APub n h) \/ p = AFail n.
 
   Lemma st_ok_keep a n t p' :
-    st_ok a n -> ~ claims (ph a t) n -> 
+    st_ok a n -> ~ claims (ph a t) n ->
     match st a n with
     | Nil | Adding _ => cnt (aux_set a n (st a n) t p') n = O
     | Pending => (1 <= cnt (aux_set a n (st a n) t p') n)%nat
@@ -134,12 +98,15 @@ Section Steps.
     st_ok (aux_set a n (st a n) t p') n.
   Proof.
     intros Ho Hc Hn. unfold FreeListInv.st_ok in *. rewrite st_set_same.
-    destruct (st a n) as [|t1|t1| | |t1|t1] eqn:Es; rewrite ?hl_set; auto.
+    destruct (st a n) as [|t1|t1| | |t1|t1] eqn:Es; rewrite ?hl_set.
+    - exact Hn.
     - destruct (Nat.eq_dec t1 t) as [->|Hne].
       + destruct Ho as [Ho|[Ho|Ho]]; [left; exact Ho| |]; exfalso; apply Hc; unfold claims; tauto.
       + rewrite ph_set_other by exact Hne. exact Ho.
     - destruct (Nat.eq_dec t1 t) as [->|Hne]; [exfalso; apply Hc; unfold claims; tauto|].
       rewrite ph_set_other by exact Hne. exact Ho.
+    - exact I.
+    - exact Hn.
     - destruct Ho as [_ Ho]. split; [exact Hn|]. destruct (Nat.eq_dec t1 t) as [->|Hne].
       + exfalso; apply Hc; unfold claims. destruct Ho as [Ho|Ho]; tauto.
       + rewrite ph_set_other by exact Hne. exact Ho.
@@ -149,6 +116,29 @@ Section Steps.
   Qed.
 
   Ltac noclaim Hp := rewrite Hp; unfold claims; intros HH; decompose [or ex] HH; discriminate.
+  Ltac cnt_eq Hc Hp := rewrite Hp in Hc; unfold has_ref in Hc; cbn in Hc; rewrite ?Nat.eqb_refl in Hc; cbn in Hc.
+  Ltac notlisted Hi Hst := split; [intros Hin; apply (S_lin Hi) in Hin; congruence|discriminate].
+  Ltac notheld Hi Hst := intros Hin; apply (S_held Hi) in Hin; congruence.
+
+  (** *** get(): the refs CAS succeeds *)
+  Lemma step_cas_refs g a t h r :
+    InvS g a -> ph a t = Busy -> refs g h = r -> r mod FLAG <> 0 ->
+    InvS (set_refs g h (u32 (r + 1))) (aux_set a h (st a h) t (GRef h)).
+  Proof.
+    intros Hi Hp Hr Hm.
+    assert (Ht : (t < N)%nat) by (eapply active_lt; eauto; congruence).
+    pose proof (cnt_set a h (st a h) t (GRef h) h Ht) as Hc. cnt_eq Hc Hp.
+    pose proof (cnt_bound N HN a h (st a h)) as Hb.
+    pose proof (cnt_bound N HN (aux_set a h (st a h) t (GRef h)) h (st a h)) as Hb'.
+    rewrite (S_refs Hi h) in Hr. subst r. rewrite enc_mod in Hm by exact Hb.
+    pose proof (S_st Hi h) as Ho.
+    apply InvS_set with (g := g);
+      [exact Hi|exact Ht|nodeof Hp|nodeof Hp|left; reflexivity|refs_frame|next_frame|left; reflexivity| | |
+       apply (S_chain Hi)|apply (S_lin Hi)|exact I|apply (S_held Hi)].
+    - rewrite refs_set_refs_same. rewrite u32_enc_add1 by lia. f_equal. lia.
+    - apply st_ok_keep; auto. { noclaim Hp. }
+      unfold FreeListInv.st_ok in Ho. destruct (st a h); cbn [base_of] in *; auto; lia.
+  Qed.
 
   (** *** get(): next loaded *)
   Lemma step_ld_next g a t h :
@@ -156,19 +146,15 @@ Section Steps.
   Proof.
     intros Hi Hp.
     assert (Ht : (t < N)%nat) by (eapply active_lt; eauto; congruence).
-    pose proof (cnt_set a h (st a h) t (GNext h (next g h)) h Ht) as Hc. rewrite Hp in Hc.
-    unfold has_ref in Hc; cbn in Hc. rewrite Nat.eqb_refl in Hc. cbn in Hc.
+    pose proof (cnt_set a h (st a h) t (GNext h (next g h)) h Ht) as Hc. cnt_eq Hc Hp.
     assert (Hc' : cnt (aux_set a h (st a h) t (GNext h (next g h))) h = cnt a h) by lia.
     pose proof (S_st Hi h) as Ho.
-    apply InvS_set with (g := g); auto.
-    - rewrite Hp; right; reflexivity.
+    apply InvS_set with (g := g);
+      [exact Hi|exact Ht|nodeof Hp|nodeof Hp|left; reflexivity|refs_frame|next_frame|left; reflexivity| | |
+       apply (S_chain Hi)|apply (S_lin Hi)|reflexivity|apply (S_held Hi)].
     - rewrite Hc'. apply (S_refs Hi).
     - apply st_ok_keep; auto. { noclaim Hp. }
       rewrite Hc'. unfold FreeListInv.st_ok in Ho. destruct (st a h); auto; tauto.
-    - apply (S_chain Hi).
-    - apply (S_lin Hi).
-    - cbn. reflexivity.
-    - apply (S_held Hi).
   Qed.
 
   (** *** get(): the head CAS fails *)
@@ -177,19 +163,15 @@ Section Steps.
   Proof.
     intros Hi Hp.
     assert (Ht : (t < N)%nat) by (eapply active_lt; eauto; congruence).
-    pose proof (cnt_set a h (st a h) t (GFail h) h Ht) as Hc. rewrite Hp in Hc.
-    unfold has_ref in Hc; cbn in Hc. rewrite Nat.eqb_refl in Hc. cbn in Hc.
+    pose proof (cnt_set a h (st a h) t (GFail h) h Ht) as Hc. cnt_eq Hc Hp.
     assert (Hc' : cnt (aux_set a h (st a h) t (GFail h)) h = cnt a h) by lia.
     pose proof (S_st Hi h) as Ho.
-    apply InvS_set with (g := g); auto.
-    - rewrite Hp; right; reflexivity.
+    apply InvS_set with (g := g);
+      [exact Hi|exact Ht|nodeof Hp|nodeof Hp|left; reflexivity|refs_frame|next_frame|left; reflexivity| | |
+       apply (S_chain Hi)|apply (S_lin Hi)|exact I|apply (S_held Hi)].
     - rewrite Hc'. apply (S_refs Hi).
     - apply st_ok_keep; auto. { noclaim Hp. }
       rewrite Hc'. unfold FreeListInv.st_ok in Ho. destruct (st a h); auto; tauto.
-    - apply (S_chain Hi).
-    - apply (S_lin Hi).
-    - cbn. exact I.
-    - apply (S_held Hi).
   Qed.
 
   (** *** get(): the head CAS succeeds: the node leaves the list *)
@@ -201,26 +183,22 @@ Section Steps.
     assert (Ht : (t < N)%nat) by (eapply active_lt; eauto; congruence).
     pose proof (S_ph Hi t) as Hx. rewrite Hp in Hx. cbn in Hx.
     pose proof (S_chain Hi) as Hch. pose proof (S_lnd Hi) as Hnd.
+    pose proof (cnt_step N a h (Taking t) (tl (lst a)) t (GTook h) (hl a t) (own a) h Ht) as Hc. cnt_eq Hc Hp.
+    pose proof (S_lin Hi h) as Hlin. pose proof (S_refs Hi h) as Hrf.
     destruct (lst a) as [|h' r] eqn:El; cbn in Hch; [congruence|].
     destruct Hch as (E & _ & Hch). rewrite Hh in E. subst h'.
-    assert (Hon : st a h = OnList) by (apply (S_lin Hi); rewrite El; left; reflexivity).
+    assert (Hon : st a h = OnList) by (apply Hlin; left; reflexivity).
     apply NoDup_cons_iff in Hnd. destruct Hnd as [Hnin Hnd'].
-    pose proof (cnt_step N a h (Taking t) (tl (lst a)) t (GTook h) (hl a t) (own a) h Ht) as Hc. rewrite Hp in Hc.
-    unfold has_ref in Hc; cbn in Hc. rewrite Nat.eqb_refl in Hc. cbn in Hc.
-    rewrite El in *. cbn [tl] in *.
-    apply (InvS_step N valid0) with (g := g); auto.
-    - rewrite Hp; right; reflexivity.
-    - right; reflexivity.
-    - right. rewrite Hon. cbn. repeat split; auto; discriminate.
-    - tauto.
+    cbn [tl] in *.
+    apply (InvS_step N valid0) with (g := g);
+      [exact Hi|exact Ht|nodeof Hp|nodeof Hp|own_change Hon|refs_frame|next_frame|left; reflexivity|tauto| | | | |exact Hnd'| | | |apply (S_hnd Hi)].
     - intros n Hn. rewrite El. cbn. split; [tauto|]. intros [E|E]; [congruence|exact E].
-    - cbn [refs set_head]. rewrite (S_refs Hi h), Hon. cbn [flag_of base_of]. f_equal. lia.
+    - cbn [refs set_head]. rewrite Hrf, Hon. cbn [flag_of base_of]. f_equal. lia.
     - unfold FreeListInv.st_ok. cbn [st step_aux]. rewrite upd_same. cbn [ph]. apply upd_same.
     - cbn [next head set_head]. rewrite <- Hx. exact Hch.
     - split; [contradiction|discriminate].
     - cbn. apply upd_same.
-    - intros Hin. apply (S_held Hi) in Hin. congruence.
-    - apply (S_hnd Hi).
+    - notheld Hi Hon.
   Qed.
 
   (** *** get(): fetch_sub 2 after a successful head CAS: the caller now holds the node *)
@@ -231,20 +209,15 @@ Section Steps.
     intros Hi Hp.
     assert (Ht : (t < N)%nat) by (eapply active_lt; eauto; congruence).
     pose proof (S_ph Hi t) as Hx. rewrite Hp in Hx. cbn in Hx.
-    pose proof (cnt_set a h (Held t) t (PRet h) h Ht) as Hc. rewrite Hp in Hc.
-    unfold has_ref in Hc; cbn in Hc. rewrite Nat.eqb_refl in Hc. cbn in Hc.
+    pose proof (cnt_set a h (Held t) t (PRet h) h Ht) as Hc. cnt_eq Hc Hp.
     pose proof (cnt_bound N HN a h (st a h)) as Hb. rewrite Hx in Hb. cbn [base_of] in Hb.
-    apply InvS_set with (g := g); auto.
-    - rewrite Hp; right; reflexivity.
-    - right; reflexivity.
-    - right. rewrite Hx. cbn. repeat split; auto; discriminate.
-    - intros n Hn. apply refs_set_refs_other; exact Hn.
+    apply InvS_set with (g := g);
+      [exact Hi|exact Ht|nodeof Hp|nodeof Hp|own_change Hx|refs_frame|next_frame|left; reflexivity| | |
+       apply (S_chain Hi)|notlisted Hi Hx| |reflexivity].
     - rewrite refs_set_refs_same, (S_refs Hi h), Hx. cbn [flag_of base_of].
       rewrite u32_enc_sub2 by lia. f_equal. lia.
     - unfold FreeListInv.st_ok. rewrite st_set_same, ph_set_same. tauto.
-    - apply (S_chain Hi).
-    - split; [|discriminate]. intros Hin. apply (S_lin Hi) in Hin. congruence.
-    - cbn. rewrite upd_same. split; [reflexivity|]. intros Hin. apply (S_held Hi) in Hin. congruence.
+    - cbn. rewrite upd_same. split; [reflexivity|]. notheld Hi Hx.
   Qed.
 
   (** *** get(): fetch_sub 1 after a failed head CAS; [refs g h = FLAG + 1] means: last reference and
@@ -255,8 +228,7 @@ Section Steps.
   Proof.
     intros Hi Hp Hw.
     assert (Ht : (t < N)%nat) by (eapply active_lt; eauto; congruence).
-    pose proof (cnt_set a h (Adding t) t (AStart h) h Ht) as Hc. rewrite Hp in Hc.
-    unfold has_ref in Hc; cbn in Hc. rewrite Nat.eqb_refl in Hc. cbn in Hc.
+    pose proof (cnt_set a h (Adding t) t (AStart h) h Ht) as Hc. cnt_eq Hc Hp.
     pose proof (cnt_bound N HN a h (st a h)) as Hb.
     pose proof (S_refs Hi h) as Hr. rewrite Hw in Hr. symmetry in Hr. apply enc_eq_flag1 in Hr; [|exact Hb].
     destruct Hr as [Hf Hc1].
@@ -266,18 +238,13 @@ Section Steps.
     assert (Hst : st a h = Pending).
     { destruct (st a h); cbn in Hf; try discriminate; [reflexivity|]. destruct Ho as [Ho _]. lia. }
     rewrite Hst in *. cbn [base_of] in *.
-    apply InvS_set with (g := g); auto.
-    - rewrite Hp; right; reflexivity.
-    - right; reflexivity.
-    - right. rewrite Hst. cbn. repeat split; auto; discriminate.
-    - intros n Hn. apply refs_set_refs_other; exact Hn.
+    apply InvS_set with (g := g);
+      [exact Hi|exact Ht|nodeof Hp|nodeof Hp|own_change Hst|refs_frame|next_frame|left; reflexivity| | |
+       apply (S_chain Hi)|notlisted Hi Hst| |notheld Hi Hst].
     - rewrite refs_set_refs_same, Hw. cbn [flag_of base_of].
       replace (cnt (aux_set a h (Adding t) t (AStart h)) h) with O by lia. reflexivity.
     - unfold FreeListInv.st_ok. rewrite st_set_same, ph_set_same. split; [lia|tauto].
-    - apply (S_chain Hi).
-    - split; [|discriminate]. intros Hin. apply (S_lin Hi) in Hin. congruence.
     - cbn. apply upd_same.
-    - intros Hin. apply (S_held Hi) in Hin. congruence.
   Qed.
 
   Lemma step_fas1_release g a t h :
@@ -286,15 +253,14 @@ Section Steps.
   Proof.
     intros Hi Hp Hw.
     assert (Ht : (t < N)%nat) by (eapply active_lt; eauto; congruence).
-    pose proof (cnt_set a h (st a h) t Busy h Ht) as Hc. rewrite Hp in Hc.
-    unfold has_ref in Hc; cbn in Hc. rewrite Nat.eqb_refl in Hc. cbn in Hc.
+    pose proof (cnt_set a h (st a h) t Busy h Ht) as Hc. cnt_eq Hc Hp.
     pose proof (cnt_bound N HN a h (st a h)) as Hb.
     assert (Hpos : (1 <= cnt a h)%nat).
     { eapply ref_cnt_pos; eauto. rewrite Hp. unfold has_ref; cbn. apply Nat.eqb_refl. }
     pose proof (S_st Hi h) as Ho.
-    apply InvS_set with (g := g); auto.
-    - rewrite Hp; right; reflexivity.
-    - intros n Hn. apply refs_set_refs_other; exact Hn.
+    apply InvS_set with (g := g);
+      [exact Hi|exact Ht|nodeof Hp|nodeof Hp|left; reflexivity|refs_frame|next_frame|left; reflexivity| | |
+       apply (S_chain Hi)|apply (S_lin Hi)|exact I|apply (S_held Hi)].
     - rewrite refs_set_refs_same, (S_refs Hi h).
       assert (0 <= base_of (st a h)) by (destruct (st a h); cbn; lia).
       rewrite u32_enc_sub1 by lia. f_equal. lia.
@@ -302,10 +268,6 @@ Section Steps.
       unfold FreeListInv.st_ok in Ho. destruct (st a h) eqn:Es; auto; try lia.
       rewrite (S_refs Hi h), Es in Hw. cbn [flag_of base_of] in Hw.
       destruct (Nat.eq_dec (cnt a h) 1) as [E|E]; [|lia]. exfalso. apply Hw. rewrite E. reflexivity.
-    - apply (S_chain Hi).
-    - apply (S_lin Hi).
-    - cbn. exact I.
-    - apply (S_held Hi).
   Qed.
 
   (** *** put(): the fetch_add of the flag; old value 0 = no references, the caller adds the node *)
@@ -316,23 +278,17 @@ Section Steps.
     intros Hi Hp Hw.
     assert (Ht : (t < N)%nat) by (eapply active_lt; eauto; congruence).
     pose proof (S_ph Hi t) as Hx. rewrite Hp in Hx. cbn in Hx. destruct Hx as [Hst Hnin].
-    pose proof (cnt_set a n (Adding t) t (AStart n) n Ht) as Hc. rewrite Hp in Hc.
-    unfold has_ref in Hc; cbn in Hc.
+    pose proof (cnt_set a n (Adding t) t (AStart n) n Ht) as Hc. cnt_eq Hc Hp.
     pose proof (cnt_bound N HN a n (st a n)) as Hb.
     pose proof (S_refs Hi n) as Hr. rewrite Hw, Hst in Hr. cbn [flag_of base_of] in Hr.
     rewrite Hst in Hb. cbn [base_of] in Hb. symmetry in Hr. apply enc_eq_0 in Hr; [|exact Hb].
-    apply InvS_set with (g := g); auto.
-    - rewrite Hp; right; reflexivity.
-    - right; reflexivity.
-    - right. rewrite Hst. cbn. repeat split; auto; discriminate.
-    - intros m Hm. apply refs_set_refs_other; exact Hm.
+    apply InvS_set with (g := g);
+      [exact Hi|exact Ht|nodeof Hp|nodeof Hp|own_change Hst|refs_frame|next_frame|left; reflexivity| | |
+       apply (S_chain Hi)|notlisted Hi Hst| |intros Hin; contradiction].
     - rewrite refs_set_refs_same, Hw. cbn [flag_of base_of].
       replace (cnt (aux_set a n (Adding t) t (AStart n)) n) with O by lia. reflexivity.
     - unfold FreeListInv.st_ok. rewrite st_set_same, ph_set_same. split; [lia|tauto].
-    - apply (S_chain Hi).
-    - split; [|discriminate]. intros Hin. apply (S_lin Hi) in Hin. congruence.
     - cbn. apply upd_same.
-    - intros Hin. contradiction.
   Qed.
 
   Lemma step_put_pending g a t n :
@@ -342,22 +298,16 @@ Section Steps.
     intros Hi Hp Hw.
     assert (Ht : (t < N)%nat) by (eapply active_lt; eauto; congruence).
     pose proof (S_ph Hi t) as Hx. rewrite Hp in Hx. cbn in Hx. destruct Hx as [Hst Hnin].
-    pose proof (cnt_set a n Pending t Busy n Ht) as Hc. rewrite Hp in Hc.
-    unfold has_ref in Hc; cbn in Hc.
+    pose proof (cnt_set a n Pending t Busy n Ht) as Hc. cnt_eq Hc Hp.
     pose proof (cnt_bound N HN a n (st a n)) as Hb.
     pose proof (S_refs Hi n) as Hr. rewrite Hst in Hr, Hb. cbn [flag_of base_of] in Hr, Hb.
     assert (Hpos : (1 <= cnt a n)%nat).
     { destruct (cnt a n) eqn:E; [|lia]. exfalso. apply Hw. rewrite Hr. reflexivity. }
-    apply InvS_set with (g := g); auto.
-    - rewrite Hp; right; reflexivity.
-    - right. rewrite Hst. cbn. repeat split; auto; discriminate.
-    - intros m Hm. apply refs_set_refs_other; exact Hm.
+    apply InvS_set with (g := g);
+      [exact Hi|exact Ht|nodeof Hp|nodeof Hp|own_change Hst|refs_frame|next_frame|left; reflexivity| | |
+       apply (S_chain Hi)|notlisted Hi Hst|exact I|intros Hin; contradiction].
     - rewrite refs_set_refs_same, Hr. cbn [flag_of base_of]. rewrite u32_enc_flag by lia. f_equal. lia.
     - unfold FreeListInv.st_ok. rewrite st_set_same. lia.
-    - apply (S_chain Hi).
-    - split; [|discriminate]. intros Hin. apply (S_lin Hi) in Hin. congruence.
-    - cbn. exact I.
-    - intros Hin. contradiction.
   Qed.
 
   (** *** add_knowing_refcount_is_zero: next.store *)
@@ -367,23 +317,19 @@ Section Steps.
     intros Hi Hp.
     assert (Ht : (t < N)%nat) by (eapply active_lt; eauto; congruence).
     pose proof (S_ph Hi t) as Hx. rewrite Hp in Hx. cbn in Hx.
-    pose proof (cnt_set a n (st a n) t (ANxt n h) n Ht) as Hc. rewrite Hp in Hc.
-    unfold has_ref in Hc; cbn in Hc.
+    pose proof (cnt_set a n (st a n) t (ANxt n h) n Ht) as Hc. cnt_eq Hc Hp.
     assert (Hc' : cnt (aux_set a n (st a n) t (ANxt n h)) n = cnt a n) by lia.
     pose proof (S_st Hi n) as Ho.
     assert (Hnl : ~ In n (lst a)). { intros Hin. apply (S_lin Hi) in Hin. congruence. }
-    apply InvS_set with (g := g); auto.
-    - rewrite Hp; right; reflexivity.
-    - right; reflexivity.
-    - intros m Hm. apply next_set_next_other; exact Hm.
+    apply InvS_set with (g := g);
+      [exact Hi|exact Ht|nodeof Hp|nodeof Hp|left; reflexivity|refs_frame|next_frame|right; exact Hx| | | |
+       apply (S_lin Hi)| |apply (S_held Hi)].
     - cbn [refs set_next]. rewrite Hc'. apply (S_refs Hi).
-    - unfold FreeListInv.st_ok in *. rewrite st_set_same, Hx in *. rewrite ph_set_same, Hc'.
+    - unfold FreeListInv.st_ok in *. rewrite st_set_same. rewrite Hx in *. rewrite ph_set_same, Hc'.
       split; [tauto|]. right. exists h. reflexivity.
     - cbn [head set_next]. apply chain_ext with (nx := next g); [|apply (S_chain Hi)].
       intros m Hm. apply next_set_next_other. intros ->. contradiction.
-    - apply (S_lin Hi).
     - cbn [phase_ok]. rewrite st_set_same. split; [exact Hx|apply next_set_next_same].
-    - apply (S_held Hi).
   Qed.
 
   (** *** add_knowing_refcount_is_zero: refs.store(1) *)
@@ -393,21 +339,15 @@ Section Steps.
     intros Hi Hp.
     assert (Ht : (t < N)%nat) by (eapply active_lt; eauto; congruence).
     pose proof (S_ph Hi t) as Hx. rewrite Hp in Hx. cbn in Hx. destruct Hx as [Hst Hnx].
-    pose proof (cnt_set a n (Publ t) t (APub n h) n Ht) as Hc. rewrite Hp in Hc.
-    unfold has_ref in Hc; cbn in Hc.
+    pose proof (cnt_set a n (Publ t) t (APub n h) n Ht) as Hc. cnt_eq Hc Hp.
     pose proof (S_st Hi n) as Ho. unfold FreeListInv.st_ok in Ho. rewrite Hst in Ho. destruct Ho as [Hz _].
-    apply InvS_set with (g := g); auto.
-    - rewrite Hp; right; reflexivity.
-    - right; reflexivity.
-    - right. rewrite Hst. cbn. repeat split; auto; discriminate.
-    - intros m Hm. apply refs_set_refs_other; exact Hm.
+    apply InvS_set with (g := g);
+      [exact Hi|exact Ht|nodeof Hp|nodeof Hp|own_change Hst|refs_frame|next_frame|left; reflexivity| | |
+       apply (S_chain Hi)|notlisted Hi Hst| |notheld Hi Hst].
     - rewrite refs_set_refs_same. cbn [flag_of base_of].
       replace (cnt (aux_set a n (Publ t) t (APub n h)) n) with O by lia. reflexivity.
     - unfold FreeListInv.st_ok. rewrite st_set_same, ph_set_same. left. exists h. reflexivity.
-    - apply (S_chain Hi).
-    - split; [|discriminate]. intros Hin. apply (S_lin Hi) in Hin. congruence.
     - cbn [phase_ok]. rewrite st_set_same. split; [reflexivity|exact Hnx].
-    - intros Hin. apply (S_held Hi) in Hin. congruence.
   Qed.
 
   (** *** add_knowing_refcount_is_zero: the head CAS succeeds: the node is on the list *)
@@ -418,23 +358,17 @@ Section Steps.
     intros Hi Hp Hh.
     assert (Ht : (t < N)%nat) by (eapply active_lt; eauto; congruence).
     pose proof (S_ph Hi t) as Hx. rewrite Hp in Hx. cbn in Hx. destruct Hx as [Hst Hnx].
-    pose proof (cnt_step N a n OnList (n :: lst a) t Busy (hl a t) (own a) n Ht) as Hc. rewrite Hp in Hc.
-    unfold has_ref in Hc; cbn in Hc.
+    pose proof (cnt_step N a n OnList (n :: lst a) t Busy (hl a t) (own a) n Ht) as Hc. cnt_eq Hc Hp.
     assert (Hnl : ~ In n (lst a)). { intros Hin. apply (S_lin Hi) in Hin. congruence. }
     assert (Hnz : n <> O). { intros ->. rewrite (st_zero N valid0 Hv0 g a Hi) in Hst. discriminate. }
-    apply (InvS_step N valid0) with (g := g); auto.
-    - rewrite Hp; right; reflexivity.
-    - right. rewrite Hst. cbn. repeat split; auto; discriminate.
-    - tauto.
+    apply (InvS_step N valid0) with (g := g);
+      [exact Hi|exact Ht|nodeof Hp|nodeof Hp|own_change Hst|refs_frame|next_frame|left; reflexivity|tauto| | | | | | |exact I|notheld Hi Hst|apply (S_hnd Hi)].
     - intros m Hm. cbn. split; [intros [E|E]; [congruence|exact E]|tauto].
     - cbn [refs set_head]. rewrite (S_refs Hi n), Hst. cbn [flag_of base_of]. f_equal. lia.
     - unfold FreeListInv.st_ok. cbn [st step_aux]. rewrite upd_same. exact I.
     - cbn [next head set_head chain]. repeat split; auto. rewrite Hnx, <- Hh. apply (S_chain Hi).
     - constructor; [exact Hnl|apply (S_lnd Hi)].
     - split; [reflexivity|]. intros _. left; reflexivity.
-    - cbn. exact I.
-    - intros Hin. apply (S_held Hi) in Hin. congruence.
-    - apply (S_hnd Hi).
   Qed.
 
   Lemma step_cas_head_add_fail g a t n h :
@@ -443,18 +377,14 @@ Section Steps.
     intros Hi Hp.
     assert (Ht : (t < N)%nat) by (eapply active_lt; eauto; congruence).
     pose proof (S_ph Hi t) as Hx. rewrite Hp in Hx. cbn in Hx. destruct Hx as [Hst Hnx].
-    pose proof (cnt_set a n (st a n) t (AFail n) n Ht) as Hc. rewrite Hp in Hc.
-    unfold has_ref in Hc; cbn in Hc.
+    pose proof (cnt_set a n (st a n) t (AFail n) n Ht) as Hc. cnt_eq Hc Hp.
     assert (Hc' : cnt (aux_set a n (st a n) t (AFail n)) n = cnt a n) by lia.
-    apply InvS_set with (g := g); auto.
-    - rewrite Hp; right; reflexivity.
-    - right; reflexivity.
+    apply InvS_set with (g := g);
+      [exact Hi|exact Ht|nodeof Hp|nodeof Hp|left; reflexivity|refs_frame|next_frame|left; reflexivity| | |
+       apply (S_chain Hi)|apply (S_lin Hi)| |apply (S_held Hi)].
     - rewrite Hc'. apply (S_refs Hi).
     - unfold FreeListInv.st_ok. rewrite st_set_same, Hst, ph_set_same. right; reflexivity.
-    - apply (S_chain Hi).
-    - apply (S_lin Hi).
     - cbn [phase_ok]. rewrite st_set_same. exact Hst.
-    - apply (S_held Hi).
   Qed.
 
   (** *** add_knowing_refcount_is_zero: fetch_add(flag - 1) after the failed head CAS *)
@@ -465,23 +395,17 @@ Section Steps.
     intros Hi Hp Hw.
     assert (Ht : (t < N)%nat) by (eapply active_lt; eauto; congruence).
     pose proof (S_ph Hi t) as Hst. rewrite Hp in Hst. cbn in Hst.
-    pose proof (cnt_set a n (Adding t) t (AStart n) n Ht) as Hc. rewrite Hp in Hc.
-    unfold has_ref in Hc; cbn in Hc.
+    pose proof (cnt_set a n (Adding t) t (AStart n) n Ht) as Hc. cnt_eq Hc Hp.
     pose proof (cnt_bound N HN a n (st a n)) as Hb.
     pose proof (S_refs Hi n) as Hr. rewrite Hw, Hst in Hr. cbn [flag_of base_of] in Hr.
     rewrite Hst in Hb. cbn [base_of] in Hb. symmetry in Hr. apply enc_eq_1 in Hr; [|exact Hb].
-    apply InvS_set with (g := g); auto.
-    - rewrite Hp; right; reflexivity.
-    - right; reflexivity.
-    - right. rewrite Hst. cbn. repeat split; auto; discriminate.
-    - intros m Hm. apply refs_set_refs_other; exact Hm.
+    apply InvS_set with (g := g);
+      [exact Hi|exact Ht|nodeof Hp|nodeof Hp|own_change Hst|refs_frame|next_frame|left; reflexivity| | |
+       apply (S_chain Hi)|notlisted Hi Hst| |notheld Hi Hst].
     - rewrite refs_set_refs_same, Hw. cbn [flag_of base_of].
       replace (cnt (aux_set a n (Adding t) t (AStart n)) n) with O by lia. reflexivity.
     - unfold FreeListInv.st_ok. rewrite st_set_same, ph_set_same. split; [lia|tauto].
-    - apply (S_chain Hi).
-    - split; [|discriminate]. intros Hin. apply (S_lin Hi) in Hin. congruence.
     - cbn. apply upd_same.
-    - intros Hin. apply (S_held Hi) in Hin. congruence.
   Qed.
 
   Lemma step_add_faa_pending g a t n :
@@ -491,22 +415,16 @@ Section Steps.
     intros Hi Hp Hw.
     assert (Ht : (t < N)%nat) by (eapply active_lt; eauto; congruence).
     pose proof (S_ph Hi t) as Hst. rewrite Hp in Hst. cbn in Hst.
-    pose proof (cnt_set a n Pending t Busy n Ht) as Hc. rewrite Hp in Hc.
-    unfold has_ref in Hc; cbn in Hc.
+    pose proof (cnt_set a n Pending t Busy n Ht) as Hc. cnt_eq Hc Hp.
     pose proof (cnt_bound N HN a n (st a n)) as Hb.
     pose proof (S_refs Hi n) as Hr. rewrite Hst in Hr, Hb. cbn [flag_of base_of] in Hr, Hb.
     assert (Hpos : (1 <= cnt a n)%nat).
     { destruct (cnt a n) eqn:E; [|lia]. exfalso. apply Hw. rewrite Hr. reflexivity. }
-    apply InvS_set with (g := g); auto.
-    - rewrite Hp; right; reflexivity.
-    - right. rewrite Hst. cbn. repeat split; auto; discriminate.
-    - intros m Hm. apply refs_set_refs_other; exact Hm.
+    apply InvS_set with (g := g);
+      [exact Hi|exact Ht|nodeof Hp|nodeof Hp|own_change Hst|refs_frame|next_frame|left; reflexivity| | |
+       apply (S_chain Hi)|notlisted Hi Hst|exact I|notheld Hi Hst].
     - rewrite refs_set_refs_same, Hr. cbn [flag_of base_of]. rewrite u32_enc_flagm1 by lia. f_equal. lia.
     - unfold FreeListInv.st_ok. rewrite st_set_same. lia.
-    - apply (S_chain Hi).
-    - split; [|discriminate]. intros Hin. apply (S_lin Hi) in Hin. congruence.
-    - cbn. exact I.
-    - intros Hin. apply (S_held Hi) in Hin. congruence.
   Qed.
 
   (** *** client events *)
@@ -523,14 +441,13 @@ Section Steps.
     rewrite A, B in Hc. cbn in Hc.
     assert (Hc' : cnt (aux_set a O (st a O) t p') O = cnt a O) by lia.
     pose proof (st_zero N valid0 Hv0 g a Hi) as Hz.
-    apply InvS_set with (g := g); auto.
+    apply InvS_set with (g := g);
+      [exact Hi|exact Ht|left; exact Hp|left; exact Hp'|left; reflexivity|refs_frame|next_frame|left; reflexivity| | |
+       apply (S_chain Hi)|apply (S_lin Hi)| |apply (S_held Hi)].
     - rewrite Hc'. apply (S_refs Hi).
-    - unfold FreeListInv.st_ok. rewrite st_set_same, Hz, Hc'. pose proof (S_st Hi O) as Ho.
+    - unfold FreeListInv.st_ok. rewrite st_set_same, Hc', Hz. pose proof (S_st Hi O) as Ho.
       unfold FreeListInv.st_ok in Ho. rewrite Hz in Ho. exact Ho.
-    - apply (S_chain Hi).
-    - apply (S_lin Hi).
     - destruct p'; cbn in *; try exact I; discriminate.
-    - apply (S_held Hi).
   Qed.
 
   Lemma step_ret_get g a t n o' :
@@ -540,21 +457,15 @@ Section Steps.
     intros Hi Hp.
     assert (Ht : (t < N)%nat) by (eapply active_lt; eauto; congruence).
     pose proof (S_ph Hi t) as Hx. rewrite Hp in Hx. cbn in Hx. destruct Hx as [Hst Hnin].
-    pose proof (cnt_step N a n (Held t) (lst a) t Idle (hl a t ++ [n]) o' n Ht) as Hc. rewrite Hp in Hc.
-    unfold has_ref in Hc; cbn in Hc.
-    apply (InvS_step N valid0) with (g := g); auto.
-    - rewrite Hp; right; reflexivity.
+    pose proof (cnt_step N a n (Held t) (lst a) t Idle (hl a t ++ [n]) o' n Ht) as Hc. cnt_eq Hc Hp.
+    apply (InvS_step N valid0) with (g := g);
+      [exact Hi|exact Ht|nodeof Hp|nodeof Hp|left; symmetry; exact Hst|refs_frame|next_frame|left; reflexivity| |tauto| | |
+       apply (S_chain Hi)|apply (S_lnd Hi)| |exact I|reflexivity| ].
     - intros m Hm. rewrite in_app_iff. cbn. split; [intros [E|[E|[]]]; [exact E|congruence]|tauto].
-    - tauto.
     - rewrite (S_refs Hi n), Hst. f_equal. f_equal. lia.
     - unfold FreeListInv.st_ok. cbn [st step_aux hl]. rewrite !upd_same. left. apply in_or_app. right; left; reflexivity.
-    - apply (S_chain Hi).
-    - apply (S_lnd Hi).
     - rewrite <- Hst. apply (S_lin Hi).
-    - cbn. exact I.
-    - apply NoDup_app_remove_l with (l := []). cbn.
-      apply NoDup_Add with (a := n) (l := hl a t); [|constructor; [exact Hnin|apply (S_hnd Hi)]].
-      apply Add_app.
+    - apply NoDup_snoc; [apply (S_hnd Hi)|exact Hnin].
   Qed.
 
   Lemma step_inv_put g a t k n o' :
@@ -565,16 +476,12 @@ Section Steps.
     assert (Hin : In n (hl a t)) by (eapply nth_error_In; eauto).
     pose proof (S_held Hi t n Hin) as Hst.
     destruct (remove_nth_spec (hl a t) k n Hk (S_hnd Hi t)) as (R1 & R2 & R3).
-    pose proof (cnt_step N a n (Held t) (lst a) t (PPut n) (remove_nth k (hl a t)) o' n Ht) as Hc. rewrite Hp in Hc.
-    unfold has_ref in Hc; cbn in Hc.
-    apply (InvS_step N valid0) with (g := g); auto.
-    - rewrite Hp; left; reflexivity.
-    - right; reflexivity.
-    - tauto.
+    pose proof (cnt_step N a n (Held t) (lst a) t (PPut n) (remove_nth k (hl a t)) o' n Ht) as Hc. cnt_eq Hc Hp.
+    apply (InvS_step N valid0) with (g := g);
+      [exact Hi|exact Ht|nodeof Hp|nodeof Hp|left; symmetry; exact Hst|refs_frame|next_frame|left; reflexivity|exact R3|tauto| | |
+       apply (S_chain Hi)|apply (S_lnd Hi)| | |reflexivity|exact R1].
     - rewrite (S_refs Hi n), Hst. f_equal. f_equal. lia.
     - unfold FreeListInv.st_ok. cbn [st step_aux ph]. rewrite !upd_same. right; left; reflexivity.
-    - apply (S_chain Hi).
-    - apply (S_lnd Hi).
     - rewrite <- Hst. apply (S_lin Hi).
     - cbn [phase_ok st step_aux]. rewrite upd_same. split; [reflexivity|exact R2].
   Qed.
